@@ -22,11 +22,55 @@ func DatePictureSoup() *rapid.Generator[string] {
 			sb.WriteString(rapid.SampledFrom(lit).Draw(t, "lit"))
 			sb.WriteString("[")
 			sb.WriteString(rapid.SampledFrom(comp).Draw(t, "comp"))
-			sb.WriteString(rapid.SampledFrom(pres).Draw(t, "pres"))
+			if rapid.IntRange(0, 3).Draw(t, "digitRun") == 0 {
+				// a run of digit placeholders of any length: the digit
+				// counts 9, 10 and beyond are limits of several
+				// components (nanoseconds, years, int widths)
+				run := rapid.SampledFrom([]int{1, 2, 3, 5, 8, 9, 10, 11, 12, 16, 19, 20, 24, 40}).Draw(t, "runLen")
+				ch := rapid.SampledFrom([]string{"0", "#", "9"}).Draw(t, "runChar")
+				sb.WriteString(strings.Repeat(ch, run-1))
+				sb.WriteString(rapid.SampledFrom([]string{"1", "0", ch, "1o", "1t"}).Draw(t, "runEnd"))
+			} else {
+				sb.WriteString(rapid.SampledFrom(pres).Draw(t, "pres"))
+			}
 			sb.WriteString(rapid.SampledFrom(width).Draw(t, "width"))
 			if rapid.IntRange(0, 12).Draw(t, "unterminated") != 0 {
 				sb.WriteString("]")
 			}
+		}
+		sb.WriteString(rapid.SampledFrom(lit).Draw(t, "tail"))
+		return sb.String()
+	})
+}
+
+// DatePictureValidish generates pictures that are mostly accepted: valid
+// component letters, presentation formats of the kinds the components take,
+// well-formed widths, closed brackets.
+func DatePictureValidish() *rapid.Generator[string] {
+	comp := []string{"Y", "M", "D", "d", "F", "W", "w", "H", "h", "P", "m", "s", "f", "Z", "z", "C", "E"}
+	pres := []string{"", "", "1", "01", "001", "N", "n", "Nn", "1o", "I", "i", "w", "W", "Ww", "wo", "a", "A", "#1", "1,001"}
+	width := []string{"", "", "", ",2", ",*-2", ",2-4", ",1-*", ",3-3", ",*-4", ",6"}
+	lit := []string{"", "-", ":", " ", "T", "/", "[[", "]]", "x", ".", ", "}
+	return rapid.Custom(func(t *rapid.T) string {
+		var sb strings.Builder
+		n := rapid.IntRange(1, 5).Draw(t, "markers")
+		for i := 0; i < n; i++ {
+			sb.WriteString(rapid.SampledFrom(lit).Draw(t, "lit"))
+			sb.WriteString("[")
+			c := rapid.SampledFrom(comp).Draw(t, "comp")
+			sb.WriteString(c)
+			switch {
+			case c == "Z" || c == "z":
+				sb.WriteString(rapid.SampledFrom([]string{"", "0", "01", "01:01", "0101", "01:01t", "0101t", "0:00", "Z", "1t", "001"}).Draw(t, "zpres"))
+			case rapid.IntRange(0, 4).Draw(t, "digitRun") == 0:
+				run := rapid.SampledFrom([]int{1, 2, 3, 4, 5, 8, 9, 10, 11, 12, 16, 19, 20, 24}).Draw(t, "runLen")
+				sb.WriteString(strings.Repeat(rapid.SampledFrom([]string{"0", "#"}).Draw(t, "runChar"), run-1))
+				sb.WriteString(rapid.SampledFrom([]string{"1", "0", "1o"}).Draw(t, "runEnd"))
+			default:
+				sb.WriteString(rapid.SampledFrom(pres).Draw(t, "pres"))
+			}
+			sb.WriteString(rapid.SampledFrom(width).Draw(t, "width"))
+			sb.WriteString("]")
 		}
 		sb.WriteString(rapid.SampledFrom(lit).Draw(t, "tail"))
 		return sb.String()
